@@ -217,13 +217,23 @@ def run(E: Engine, rep: Report, tier: str) -> dict:
 
     # -------------------------------------------------------------- TABLE
     cs = P.lookup_method(cc, SANITISER)[0]
+    from .. import sym as _sym0
+    from .symutil import S as _S0, is_ as _is0, unobj as _unobj0, sh as _sh0
+
     ok_rev = False
-    ok_lex = False
-    for n in ast.walk(cs.node):
-        if isinstance(n, ast.Call) and (dotted(n.func) or "") == "range" and len(n.args) == 3 and norm(n.args[1]) == "-1" and norm(n.args[2]) == "-1":
+    lex = _S0(E, cs).calls("lexsort")
+    ok_lex = bool(lex)
+    for l in lex:
+        a0 = _unobj0(l.value[2][0]) if l.value[2] else None
+        while a0 is not None and a0[0] == "call" and a0[1] in (("name", "tuple"), ("name", "list")) and len(a0[2]) == 1:
+            a0 = _unobj0(a0[2][0])
+        if a0 is not None and a0[0] == "comp" and len(a0[3]) == 1:
+            it = _unobj0(a0[3][0][0])
+            rev_iter = any(_is0(it, p_) is not None for p_ in ("range(Q_d - 1, -1, -1)", "reversed(range(Q_d))", "range(Q_d)[::-1]", "reversed(list(range(Q_d)))"))
+            col = _is0(a0[2], "Q_a[:, Q_i]")
+            ok_rev = rev_iter and col is not None and col["Q_i"] == ("elem", a0[3][0][0], 0)
+        elif a0 is not None and (_is0(a0, "Q_a[:, ::-1].T") is not None or _is0(a0, "Q_a.T[::-1]") is not None):
             ok_rev = True
-        if isinstance(n, ast.Call) and (dotted(n.func) or "").endswith("lexsort"):
-            ok_lex = True
     rep.check(ok_rev and ok_lex, "TABLE", "CoordsCollection._calc_sorting_order|x-primary-lexsort", "lexsort keys are the dimensions in reversed order (last key = x is primary)", "the sorting order is no longer 'ascending x, then y, then z' (lexsort over reversed dimensions)", E.where(cs))
     abc_ = abstractor(E.flow(cs))
     for n in ast.walk(cs.node):
